@@ -11,3 +11,6 @@ import TsVerif.C18.Props
 #print axioms TsVerif.C18.queue_sorted_dedup_partial
 #print axioms TsVerif.C18.queue_lowest_pattern_wins
 #print axioms TsVerif.C18.drain_skips_ignored
+#print axioms TsVerif.C18.queue_lowest_pattern_run_partial
+#print axioms TsVerif.C18.local_filter_spec
+#print axioms TsVerif.C18.local_filter_iff
